@@ -4,7 +4,8 @@
 (* by putting the recorded operations through the abstract operators of SparseCSC.tla. *)
 (* After every construction / modification step of a C06 history the logged public     *)
 (* fields must be well-formed compressed-column storage whose abstract content is      *)
-(* `cur` (the order of the row indices inside a column is NOT demanded), and the four   *)
+(* `cur` BY VALUE (a stored zero and an absent entry are the same; the order of the row *)
+(* indices inside a column is NOT demanded), and the four                               *)
 (* logged views (get on every position, to_triplets, to_dense, col_index) must each    *)
 (* describe `cur`.  A "products" event (C07) must report the exact dense products of    *)
 (* `cur` for A x, A^T y, transpose() times y, the adjoint identity and scaled products. *)
@@ -38,17 +39,17 @@ JudgeState(e, X) ==
   IF e.panic \/ ~e.obj THEN "panic"
   ELSE IF ~Structured(e.f) THEN "not-well-formed"
   ELSE IF Cardinality(Entries(e.f)) # e.f.nz THEN "duplicate-entries"
-  ELSE IF ~RefinesFast(e.f, X) THEN "content"
+  ELSE IF ~RefinesValue(e.f, X) THEN "content"
   ELSE IF ~e.views THEN ""
   ELSE IF e.vpanic THEN "view-panic"
-  ELSE IF ~ViewGet(e.gp, e.gv, X) THEN "view-get"
-  ELSE IF ~ViewTriplets(e.trip, X) THEN "view-to_triplets"
+  ELSE IF ~ViewGetV(e.gp, e.gv, X) THEN "view-get"
+  ELSE IF ~ViewTripletsV(e.trip, X) THEN "view-to_triplets"
   ELSE IF ~ViewDense(e.dense, X) THEN "view-to_dense"
-  ELSE IF ~ViewColIndex(e.ci, X) THEN "view-col_index"
+  ELSE IF ~ViewColIndexF(e.ci, e.f) THEN "view-col_index"
   ELSE ""
 \* state to continue from: the logged content when it has one, else the reference
 Resync(e, X) == IF ~e.obj \/ ~Structured(e.f) THEN X
-                ELSE IF RefinesFast(e.f, X) THEN X
+                ELSE IF RefinesValue(e.f, X) THEN X
                 ELSE IF WellFormed(e.f) THEN Abs(e.f) ELSE X
 
 \* ---- C07: verdict on a products event ----
